@@ -15,7 +15,7 @@ import (
 func init() {
 	register("C05",
 		"that the change-overs happen at the right instants (the term instants themselves are numeric), the 60-cycle continuity of the day pillar (numeric in the Julian Day), and the parity coupling of stem and branch (AX-PARITY).",
-		r05_1, r05_2, r05_3, r05_4, r05_5)
+		r05_1, r05_2, r05_3, r05_4, r05_5, r04_2, r11_2)
 }
 
 var pillarIndexField = regexp.MustCompile(`(?i)(gan|zhi)index`)
